@@ -7,6 +7,7 @@ from ..cfg import forward, dominators, _walk_no_nested, path_str
 from ..seq import (gen_cfg, yields_of, check_rdisc, assigned_names,
                    _is_attr_chain)
 from ..normal import normalise
+from .. import pred
 
 MOD = "dali.sequences"
 GEAR = "dali.gear.general."
@@ -375,15 +376,119 @@ def _check_dt_cases(run, mod, Q, cfg, ys, first):
                where(mod, cfg.fn))
         return
     r = first[0].target
-    rets = [n for n in cfg.reachable if n.kind == "stmt" and isinstance(
-        n.ast, ast.Return)]
-    txt = {unparse(n.ast.value) if n.ast.value is not None else "None"
-           for n in rets}
     v = "%s.raw_value.as_integer" % r
-    ok = ("[%s]" % v) in txt and "[]" in txt
-    run.ob("R-DT-CASES", Q + "#returns", ok,
-           "expected returns [%s], [] and the accumulated list, found %s"
-           % (v, sorted(txt)), where(mod, cfg.fn))
+    heads = {n.id for n in cfg.reachable if (
+        n.kind == "join" and "loop" in n.info) or n.kind == "for"}
+    P = pred.Parser(pred.lin_of({v: "v"}))
+    HYP = (("le", "0", "v", 0), ("le", "v", "0", -255))
+
+    def outcomes(start, stop_ids, vtxt, parser):
+        """{outcome text: DNF over the answer value} for the acyclic paths
+        from `start` to a return / raise / one of stop_ids; tests that do
+        not mention the value are projected away."""
+        res = {}
+
+        def walk(n, conds, onpath):
+            if n.id in onpath:
+                return
+            if n.id in stop_ids:
+                add("loop", conds)
+                return
+            if n.kind == "stmt" and isinstance(n.ast, ast.Return):
+                add("return " + (unparse(n.ast.value) if n.ast.value
+                                 is not None else "None"), conds)
+                return
+            if n.kind in ("raise_exit",) or (n.kind == "stmt" and isinstance(
+                    n.ast, ast.Raise)):
+                add("raise", conds)
+                return
+            if n.kind == "exit":
+                add("return None", conds)
+                return
+            for (l, m) in n.succ:
+                if l == "exc":
+                    continue
+                c = conds
+                if n.kind == "test" and l in ("T", "F") and vtxt in unparse(
+                        n.ast, 400):
+                    t = parser.tree(n.ast)
+                    c = conds + [t if l == "T" else ("not", t)]
+                walk(m, c, onpath | {n.id})
+
+        def add(k, conds):
+            d = pred.dnf(("and", conds))
+            d = frozenset(frozenset(a for a in c if a[0] == "le")
+                          for c in d if pred.sat(c))
+            res[k] = pred.union(res.get(k, frozenset()), d)
+        for (l, m) in start.succ:
+            if l != "exc":
+                walk(m, [], frozenset([start.id]))
+        return res
+
+    def atom_dnf(lo, hi):
+        return pred.dnf(("and", [("atom", ("le", "0", "v", lo)),
+                                 ("atom", ("le", "v", "0", -hi))]))
+    try:
+        got = outcomes(first[0].node, heads, v, P)
+    except pred.Unrecognised as e:
+        raise AnalysisError("R-DT-CASES: a test on the answer is outside "
+                            "the comparison forms read: %s" % e)
+    want = {"return [%s]" % v: atom_dnf(0, 253), "return []":
+            atom_dnf(254, 254), "loop": atom_dnf(255, 255)}
+    for k, w in want.items():
+        g = got.get(k, frozenset())
+        eq, wit = pred.equivalent(g, w, HYP)
+        run.ob("R-DT-CASES", "%s#first-answer:%s" % (Q, k.replace(v, "v")),
+               eq, "for the QueryDeviceType answer v, `%s` must happen "
+               "exactly when %s; found when %s" % (
+                   k.replace(v, "v"), pred.show(w), pred.show(g) or "never"),
+               where(mod, first[0].node),
+               sample={"rule": "R-DT-CASES", "outcome": k,
+                       "when": pred.show(g)})
+    for k, g in got.items():
+        if k in want or k == "raise":
+            continue
+        sat = any(pred.sat(c, HYP) for c in g)
+        run.ob("R-DT-CASES", "%s#first-answer:other:%s" % (Q, k), not sat,
+               "outcome `%s` for the first answer is none of [v] / [] / poll "
+               "(reached when %s)" % (k, pred.show(g)),
+               where(mod, first[0].node))
+    rz = got.get("raise", frozenset())
+    sat = any(c and pred.sat(c, HYP) for c in rz)
+    run.ob("R-DT-CASES", Q + "#first-answer:raise", not sat,
+           "a valid first answer is rejected when %s" % pred.show(rz),
+           where(mod, first[0].node))
+    # inside the poll loop: 254 ends it, returning the accumulated list
+    txt = set()
+    nloop = 0
+    for y in ys:
+        if not _is(y, "QueryNextDeviceType") or not y.target:
+            continue
+        v2 = "%s.raw_value.as_integer" % y.target
+        P2 = pred.Parser(pred.lin_of({v2: "v"}))
+        try:
+            got2 = outcomes(y.node, heads, v2, P2)
+        except pred.Unrecognised as e:
+            raise AnalysisError("R-DT-CASES: a test on the polled answer is "
+                                "outside the comparison forms read: %s" % e)
+        nloop += 1
+        rets = {k: g for k, g in got2.items() if k.startswith("return ")}
+        allret = pred.union(*rets.values()) if rets else frozenset()
+        txt |= {k[len("return "):] for k in rets}
+        # the emptiness test is a proposition; projected away here
+        w = atom_dnf(254, 254)
+        eq, wit = pred.equivalent(allret, w, HYP)
+        run.ob("R-DT-CASES", Q + "#poll-ends-at-254", eq and len(rets) == 1,
+               "the poll must return (one accumulated list) exactly when "
+               "the answer is 254; returns %s when %s" % (
+                   sorted(rets), pred.show(allret) or "never"),
+               where(mod, y.node))
+        cont = got2.get("loop", frozenset())
+        ok = not any(pred.sat(c | next(iter(w)), HYP)
+                     for c in cont)
+        run.ob("R-DT-CASES", Q + "#poll-254-not-recorded", ok,
+               "an answer of 254 can continue the poll", where(mod, y.node))
+    run.floor("QueryNextDeviceType answer sites", nloop, 1)
     # the accumulated list is appended with the received value in the loop
     app = []
     for n in cfg.reachable:
@@ -398,17 +503,6 @@ def _check_dt_cases(run, mod, Q, cfg, ys, first):
         for a in acc),
         "the returned list is not built from the received values: %s" % app,
         where(mod, cfg.fn))
-    # sentinel constants
-    consts = set()
-    for n in cfg.reachable:
-        if n.kind == "test" and isinstance(n.ast, ast.Compare):
-            for c in n.ast.comparators:
-                if isinstance(c, ast.Constant) and isinstance(c.value, int):
-                    consts.add((type(n.ast.ops[0]).__name__, c.value))
-    run.ob("R-DT-CASES", Q + "#sentinels",
-           ("Lt", 254) in consts and ("Eq", 254) in consts,
-           "sentinel tests (<254, ==254) not found: %s" % sorted(consts),
-           where(mod, cfg.fn))
 
 
 # ---------------------------------------------------------------------------
@@ -554,10 +648,12 @@ def _check_setgroups(run, world, mod, S, cfg, ys, fn):
             diff_rem += 1
         elif it in ("range(0, 16)", "range(16)"):
             kind = "full"
-            # guarded by membership test
-            t = _guard_of(y.node)
-            good = t is not None and unparse(t[0]) == "%s in %s" % (i, grp) \
-                and t[1] == ("T" if is_add else "F")
+            # chosen by membership: Add exactly when i is in the wanted set
+            mem = _project(_path_conds(cfg, y.node, world),
+                           lambda a: a[1] == "%s in %s" % (i, grp))
+            want = frozenset([frozenset([("p", "%s in %s" % (i, grp),
+                                          is_add)])])
+            good = pred.equivalent(mem, want)[0]
             if is_add:
                 full_add += 1
             else:
@@ -578,21 +674,79 @@ def _check_setgroups(run, world, mod, S, cfg, ys, fn):
            "expected one add and one remove in each mode (diff: %d/%d, "
            "full: %d/%d)" % (diff_add, diff_rem, full_add, full_rem),
            where(mod, fn))
-    # mode selection: diff mode iff isinstance(addr, Short) or int
-    tests = [n for n in cfg.reachable if n.kind == "test" and isinstance(
-        n.ast, ast.Call) and unparse(n.ast.func) == "isinstance"]
-    kinds = set()
-    for t in tests:
-        if unparse(t.ast.args[0]) == addr:
-            a1 = t.ast.args[1]
-            elts = a1.elts if isinstance(a1, ast.Tuple) else [a1]
-            for e in elts:
-                c = world.resolve_class(MOD, e)
-                kinds.add(c.qname if c else unparse(e))
-    run.ob("R-SETGRP", S + "#mode-test",
-           kinds == {"dali.address.GearShort", "int"},
-           "read-modify-write mode must be chosen exactly for a gear short "
-           "address or an int, got %s" % sorted(kinds), where(mod, fn))
+    # mode selection: read-modify-write exactly for a short address or an int
+    isS = ("p", "isinstance(%s, dali.address.GearShort)" % addr, True)
+    isI = ("p", "isinstance(%s, int)" % addr, True)
+    rmw = frozenset([frozenset([isS]), frozenset([isI])])
+    blind = frozenset([frozenset([pred.neg_atom(isS), pred.neg_atom(isI)])])
+    for y in adds + rems + qg:
+        loop = _enclosing_for(y.node)
+        it = unparse(loop.iter) if loop is not None else ""
+        full = it in ("range(0, 16)", "range(16)")
+        got = _project(_path_conds(cfg, y.node, world),
+                       lambda a: a[1].startswith("isinstance(%s, " % addr))
+        want = blind if full else rmw
+        ok = pred.equivalent(got, want)[0]
+        run.ob("R-SETGRP", "%s#mode-test:%s[%s]" % (
+            S, y.name if not y.is_from else "QueryGroups",
+            "full" if full else "diff"), ok,
+            "read-modify-write must be chosen exactly for a gear short "
+            "address or an int and the blind 16-group write otherwise; this "
+            "command is sent when %s" % (pred.show(got) or "never"),
+            where(mod, y.node))
+
+
+def _cond_tree(t, world):
+    """Formula tree of an atomic CFG test."""
+    if isinstance(t, ast.UnaryOp) and isinstance(t.op, ast.Not):
+        return ("not", _cond_tree(t.operand, world))
+    if isinstance(t, ast.Call) and unparse(t.func) == "isinstance" and len(
+            t.args) == 2:
+        a1 = t.args[1]
+        elts = a1.elts if isinstance(a1, ast.Tuple) else [a1]
+        alts = []
+        for e in elts:
+            c = world.resolve_class(MOD, e)
+            alts.append(("atom", ("p", "isinstance(%s, %s)" % (
+                unparse(t.args[0]), c.qname if c else unparse(e)), True)))
+        return alts[0] if len(alts) == 1 else ("or", alts)
+    if isinstance(t, ast.Compare) and len(t.ops) == 1 and isinstance(
+            t.ops[0], (ast.In, ast.NotIn)):
+        f = ("atom", ("p", "%s in %s" % (unparse(t.left), unparse(
+            t.comparators[0])), True))
+        return f if isinstance(t.ops[0], ast.In) else ("not", f)
+    return ("atom", ("p", unparse(t, 200), True))
+
+
+def _path_conds(cfg, target, world, limit=4000):
+    """DNF of the branch conditions over the acyclic paths from the entry
+    to `target`."""
+    out = []
+    count = [0]
+
+    def walk(n, conds, onpath):
+        count[0] += 1
+        if count[0] > limit:
+            raise AnalysisError("R-SETGRP: too many paths")
+        if n is target:
+            out.append(pred.dnf(("and", conds)))
+            return
+        if n.id in onpath:
+            return
+        for (l, m) in n.succ:
+            if l == "exc":
+                continue
+            c = conds
+            if n.kind == "test" and l in ("T", "F"):
+                t = _cond_tree(n.ast, world)
+                c = conds + [t if l == "T" else ("not", t)]
+            walk(m, c, onpath | {n.id})
+    walk(cfg.entry, [], frozenset())
+    return pred.union(*out) if out else frozenset()
+
+
+def _project(d, keep):
+    return frozenset(frozenset(a for a in c if keep(a)) for c in d)
 
 
 def _enclosing_for(node):
